@@ -23,8 +23,12 @@ def replay_kvs_generic(inputs, obl):
         [('set', 'k', 'v1'), ('set', 'k', 'v2'), ('get', 'k'), ('reopen',), ('get', 'k'), ('unload', 'k'), ('get', 'k')],
         [('set', 'x', 'a' * 40), ('set', 'y', 'b' * 40), ('get', 'x'), ('set', 'z', 'c' * 40), ('get', 'y'), ('get', 'x'), ('get', 'z')],
         [('set', 'big', 'q' * 500)],
+        [('set', 'k', 'small'), ('set', 'k', 'q' * 500), ('get', 'k'), ('set', 'k', 'tiny'), ('get', 'k'), ('set', 'o', 1), ('get', 'o')],
     ]
-    for max_mem in (70, 150, 10 ** 6):
+    # overwrite sweeps: the new value's size passes through 'exactly fits' / 'one byte over' for every small limit
+    for L in range(1, 75, 1):
+        scripts.append([('set', 'k', 'x' * 10), ('set', 'j', 'y' * 10), ('set', 'k', 'z' * L), ('set', 'm', 'w' * 30), ('get', 'k'), ('get', 'm'), ('get', 'j')])
+    for max_mem in (70, 100, 120, 150, 10 ** 6):
         for script in scripts:
             d = tempfile.mkdtemp(prefix='c16_replay_')
             model = {}
@@ -68,3 +72,55 @@ def replay_kvs_generic(inputs, obl):
 
 
 replay_kvs_generic.timeout_s = 120
+
+
+def replay_table_merge(inputs, obl):
+    """the documented merge through the real table cache: stored rows win on equal index, new index values are added, the result is
+    sorted and has no duplicate index - for stored/new tables with equal, reversed, interleaved and duplicated index values"""
+    import tempfile, shutil, os
+    import pandas as pd
+    from klongpy.db.df_cache import PandasDataFrameCache
+    problems = []
+    shapes = []
+    for n in (1, 2, 5, 17, 40, 130):
+        shapes.append((list(range(n)), list(range(n - 1, -1, -1))))                  # same index values, reversed order
+        shapes.append((list(range(0, 2 * n, 2)), list(range(2 * n - 1, -1, -1))))    # interleaved, reversed
+        shapes.append((list(range(n)), [n // 2] * 3 + list(range(n, n + 3)) + [n // 2]))   # duplicates inside the new table
+    for old_idx, new_idx in shapes:
+        d = tempfile.mkdtemp(prefix='pyvc_tbl_')
+        try:
+            c = PandasDataFrameCache(root_path=d)
+            f = 't.pkl'
+            old = pd.DataFrame({'v': [f"old{i}" for i in old_idx]}, index=old_idx)
+            new = pd.DataFrame({'v': [f"new{j}@{p}" for p, j in enumerate(new_idx)]}, index=new_idx)
+            c.update(f, old)
+            r = c.update(f, new)
+            again = c.get_dataframe(f) if hasattr(c, 'get_dataframe') else r
+            for frame, what in ((r, 'returned table'), (again, 'table read back')):
+                idx = list(frame.index)
+                if idx != sorted(idx) or len(set(idx)) != len(idx):
+                    problems.append(f"{what} is not sorted / has duplicate index: {idx[:12]}")
+                    break
+                if set(idx) != set(old_idx) | set(new_idx):
+                    problems.append(f"{what} has index values {sorted(set(idx) ^ (set(old_idx) | set(new_idx)))[:6]} too many/few")
+                    break
+                lost = [i for i in old_idx if frame.loc[i, 'v'] != f"old{i}"]
+                if lost:
+                    problems.append(f"{what}: stored rows {lost[:6]} were replaced by rows of the new table (stored index {old_idx[:6]}.., new index {new_idx[:6]}..)")
+                    break
+                firsts = {}
+                for p, j in enumerate(new_idx):
+                    firsts.setdefault(j, f"new{j}@{p}")
+                wrong = [j for j in firsts if j not in old_idx and frame.loc[j, 'v'] != firsts[j]]
+                if wrong:
+                    problems.append(f"{what}: for new index {wrong[:4]} a later duplicate row was kept instead of the first")
+                    break
+        except Exception as e:
+            problems.append(f"merge raised {type(e).__name__}: {e}")
+        finally:
+            shutil.rmtree(d, ignore_errors=True)
+        if problems:
+            break
+    if problems:
+        return dict(confirmed=True, detail='; '.join(problems[:2]))
+    return dict(confirmed=False, detail='merge of stored and new tables follows the documented rule on all shapes tried')
